@@ -84,6 +84,7 @@ struct Sim {
   int speed = 1; // 0 starved child, 1 normal, 2 eager child
   uint32_t eintr_den = 0, eagain_den = 0, clamp_den = 0, stall_den = 0;
   size_t pipe_capacity = 0;
+  bool close_fd0 = false; // the calling process has no descriptor 0 (daemon): pipe() hands out 0
   uint64_t step_budget = 40000;
   uint64_t call_budget = 150000;
   int kills_sent = 0;
@@ -817,7 +818,28 @@ void draw_environment() {
     g.stall_den = (uint32_t)pick({0, 64, 8}, "f.stall");
   }
   g.pipe_capacity = pick({0, 4096, 8192, 1 << 20}, "pipe.capacity");
+  g.close_fd0 = choose(8, "parent.fd0_closed") == 7;
 }
+
+// Runs the armed section with the process's descriptor 0 closed (and puts it back afterwards), so that
+// the first pipe() of the code under test is handed descriptor 0.
+struct Fd0Closer {
+  int saved = -1;
+  explicit Fd0Closer(bool enable) {
+    if (!enable) return;
+    saved = fcntl(0, F_DUPFD_CLOEXEC, 300);
+    if (saved >= 0) {
+      __real_close(0);
+      VS_PROBE("caller_without_descriptor_0");
+    }
+  }
+  ~Fd0Closer() {
+    if (saved >= 0) {
+      dup2(saved, 0);
+      __real_close(saved);
+    }
+  }
+};
 
 size_t effective_capacity() { return g.pipe_capacity ? g.pipe_capacity : 65536; }
 
@@ -896,14 +918,17 @@ void scen_run_process() {
   string what;
   set_context("run_process/" + s.family);
   uint64_t t_start = g.clock;
-  g.armed = true;
-  try {
-    res = phosg::run_process(cmd, with_stdin ? &payload : nullptr, check, nullptr, nullptr, timeout);
-  } catch (const std::exception& e) {
-    threw = true;
-    what = e.what();
+  {
+    Fd0Closer fd0(g.close_fd0);
+    g.armed = true;
+    try {
+      res = phosg::run_process(cmd, with_stdin ? &payload : nullptr, check, nullptr, nullptr, timeout);
+    } catch (const std::exception& e) {
+      threw = true;
+      what = e.what();
+    }
+    g.armed = false;
   }
-  g.armed = false;
   set_context("");
   uint64_t t_end = g.clock;
   add_sim_time_us(0);
@@ -1006,6 +1031,7 @@ void scen_communicate() {
   int wait_status = -1;
   set_context("communicate/" + s.family);
   uint64_t t_start = 0, t_return = 0;
+  Fd0Closer fd0(g.close_fd0);
   g.armed = true;
   try {
     phosg::Subprocess sp(cmd);
@@ -1216,7 +1242,7 @@ int main(int argc, char** argv) {
       {"child program", "stub: vsim/child.c, a scripted peer that makes one non-blocking step per simulator command"},
       {"scheduling between parent and child, clock, poll timeouts, EINTR/EAGAIN/short transfers", "simulator (link-time wrappers in engines/sim_proc.cc)"}};
   e.expected_probes = {"payload_larger_than_pipe", "output_larger_than_pipe", "clock_jumped_over_child_sleep", "poll_timed_out", "blocking_waitpid", "timeout_killed_child", "check_threw_on_nonzero_status",
-      "child_died_by_own_signal", "child_exited_with_unread_output_in_pipe", "communicate_with_deadline_returned", "communicate_without_deadline_returned", "communicate_deadline_passed", "parent_busy_wait_skipped", "lifecycle_waited", "destructor_killed_running_child", "destructor_found_child_exited", "run_process_called_repeatedly", "grandchild_kept_pipes_open", "sigkill_after_ignored_sigterm", "destructor_ended_running_child"};
+      "child_died_by_own_signal", "child_exited_with_unread_output_in_pipe", "communicate_with_deadline_returned", "communicate_without_deadline_returned", "communicate_deadline_passed", "parent_busy_wait_skipped", "lifecycle_waited", "destructor_killed_running_child", "destructor_found_child_exited", "run_process_called_repeatedly", "grandchild_kept_pipes_open", "sigkill_after_ignored_sigterm", "destructor_ended_running_child", "caller_without_descriptor_0"};
   e.expected_faults = {"EINTR@poll", "EINTR@waitpid", "spurious_EAGAIN@read", "spurious_EAGAIN@write", "short_read", "short_write", "parent_stall"};
   return driver_main(argc, argv, e);
 }
